@@ -315,6 +315,10 @@ func genC07(t *rapid.T) any {
 		c.SubAlias = "sb"
 		if c.Form == "sel-sub" {
 			c.Sub = "SELECT " + sc.p + " FROM " + sc.items
+			if rapid.IntRange(0, 3).Draw(t, "subagg") == 0 {
+				// an aggregate-only sub query: one row per outer row, also over an empty nested array
+				c.Sub = fmt.Sprintf("SELECT COUNT(*) AS n, %s(%s) AS sv FROM %s", rapid.SampledFrom([]string{"SUM", "MAX", "MIN"}).Draw(t, "subaggfn"), sc.p, sc.items)
+			}
 			if rapid.Bool().Draw(t, "subwhere") {
 				c.Sub += fmt.Sprintf(" WHERE %s %s %s", sc.p, rapid.SampledFrom(cmpOps).Draw(t, "subop"), sq.NumLit(rapid.SampledFrom([]float64{1, 2, 3, 5}).Draw(t, "subc")))
 			}
